@@ -131,8 +131,26 @@ static const char* kTaskNames[] = {"clean_old_log_files", "installation_update",
                                    "backup_config_files", "user_dict_sync"};
 
 // ---------------------------------------------------------------- notification handler
-static void on_message(void*, RimeSessionId, const char* type, const char* value) {
+// Every handler the client installs has a context object of its own.  The handler writes to it (plain memory); once
+// set_notification_handler() has returned, the client takes the previous context back and writes to it too.  The service
+// delivers notifications and replaces the handler under one mutex, so the two never touch a context unordered — a delivery
+// still running on the replaced handler after the call returned is a data race on the context (ThreadSanitizer run).
+struct HandlerCtx { long notes = 0; long taken_back = 0; };
+static HandlerCtx* g_handler_ctx = nullptr;   // client thread only
+static std::atomic<bool> g_slow_handler{false};
+static void on_message(void* p, RimeSessionId, const char* type, const char* value) {
+  if (auto* h = static_cast<HandlerCtx*>(p)) {
+    h->notes++;
+    if (g_slow_handler.load()) for (volatile int i = 0; i < 30000; ++i) {}
+    h->notes++;
+  }
   if (std::strcmp(type, "deploy") == 0) log_ev(std::string("note:") + value);
+}
+static void install_fresh_handler(RimeApi* api) {
+  HandlerCtx* fresh = new HandlerCtx;    // never freed: a context must not be confused with a recycled one
+  api->set_notification_handler(&on_message, fresh);
+  if (g_handler_ctx) { g_handler_ctx->taken_back = g_handler_ctx->notes; g_handler_ctx->notes = -1; }
+  g_handler_ctx = fresh;
 }
 
 // ---------------------------------------------------------------- the controlled scheduler
@@ -286,7 +304,7 @@ static void do_op(const Op& op) {
     if (g_last_session) session_mon(k, mb, r != 0, g_guard_hits);
     ret(k, r ? 1 : 0);
   } else if (k == "set_handler") {
-    api->set_notification_handler(&on_message, nullptr);
+    install_fresh_handler(api);
     ret(k, 2);
   }
 }
@@ -480,6 +498,7 @@ static void stress_watchdog() {
 
 static int run_stress_mode(uint64_t seed, int iters) {
   L.ordered = false;
+  g_slow_handler = true;
   vh::Rng rng(seed), crng(seed ^ 0x5151);
   g_client_rng = &crng;
   std::thread wd(stress_watchdog);
